@@ -3,6 +3,7 @@
 #include <algorithm>
 #include <cstdlib>
 #include <fstream>
+#include <functional>
 #include <set>
 #include <sstream>
 #include <sys/wait.h>
@@ -227,11 +228,16 @@ int main(int argc, char **argv) {
     int prop = prop_of(arg(argc, argv, "--prop", "C05"));
     uint64_t base = std::strtoull(arg(argc, argv, "--seed", "1"), nullptr, 10);
 
-    // warm-up: lets libstdc++ / libc perform their one-time lazy allocations outside any ledger epoch
+    // warm-up: lets libstdc++ / libc perform their one-time lazy allocations outside any ledger epoch.  Deliberately uses no
+    // library-under-test code, so a broken tree cannot kill the process before the first run is attributed.
     {
-        Plan w = gen_plan(P_C19, 12345); for (auto &o : w.ops) o.fault = 0;
-        (void)run_plan(w, nullptr);
-        Plan w2 = gen_plan(P_C04, 777); (void)run_plan(w2, nullptr);
+        simrt::SutScope sut;
+        std::ostringstream os; os << 1.5 << "x" << 42; std::wostringstream ws; ws << L"w" << 7;
+        std::istringstream is("tok en"); std::string t; is >> t; std::wistringstream wis(L"tok en"); std::wstring wt; wis >> wt;
+        try { throw std::runtime_error("warm-up"); } catch (const std::exception &) { }
+        std::function<void()> f = [t] { }; f();
+        std::vector<std::string> v(3, std::string(40, 'x')); v.emplace_back("y");
+        char b[64]; std::snprintf(b, sizeof b, "%g %e %f", 1.5, 2.5, 3.5);
     }
 
     if (cmd == "batch") {
